@@ -1274,6 +1274,29 @@ pub fn rec_mixed(args: &Args) {
                 let _ = h.iresp(&mut out, &a.ep, &mut pushed, &json!({"kind": "mixed-push"}));
                 continue;
             }
+            if action < 31 && action >= 26 {
+                // a request on this actor's key that the handler refuses or cannot answer, while the key may
+                // hold live state: nothing but what the specification says may happen to that state
+                let sz = 16usize << a.szx;
+                let cur = (a.off / sz).min(60000) as u16;
+                let p = match r.below(5) {
+                    0 => mkreq(&ReqSpec { code: a.code, typ: 0, mid, tok: r.bytes(a.toklen), segs: &a.segs, b1: Some((cur + (16384 / sz) as u16 + 3, true, a.szx)), b2: None, pay: body_bytes(sz.min(40), 5), extra: vec![] }),
+                    1 => mkreq(&ReqSpec { code: a.code, typ: 2 + r.below(2), mid, tok: r.bytes(a.toklen), segs: &a.segs, b1: Some((cur, true, a.szx)), b2: None, pay: body_bytes(sz, 6), extra: vec![] }),
+                    2 => { let mut q = mkreq(&ReqSpec { code: a.code, typ: 0, mid, tok: r.bytes(a.toklen), segs: &a.segs, b1: None, b2: None, pay: body_bytes(7, 7), extra: vec![] }); q.add_option(CoapOption::Block1, vec![1, 2, 3, 4]); q }
+                    3 => mkreq(&ReqSpec { code: a.code, typ: 2 + r.below(2), mid, tok: r.bytes(a.toklen), segs: &a.segs, b1: None, b2: Some((cur, false, a.szx)), pay: vec![], extra: vec![] }),
+                    _ => { let mut q = mkreq(&ReqSpec { code: a.code, typ: 0, mid, tok: r.bytes(a.toklen), segs: &a.segs, b1: None, b2: None, pay: vec![], extra: vec![] }); q.add_option(CoapOption::Block2, vec![9, 9, 9, 9]); q }
+                };
+                let (o, mut req) = h.ireq(&mut out, &a.ep, &p, &json!({"kind": "mixed-refused"}));
+                if o["k"] == "ok" && o["handled"] == false && req.response.is_some() {
+                    if let Some(resp) = req.response.as_mut() {
+                        resp.message.header.code = 0x45.into();
+                        resp.message.payload = a.body.clone();
+                    }
+                    let _ = h.iresp(&mut out, &a.ep, &mut req, &json!({"kind": "mixed-refused"}));
+                    a.b2 = None;
+                }
+                continue;
+            }
             let skip = action < 26;
             let extra = if a.extra > 0 { vec![(15u16, vec![b'q'; a.extra])] } else { vec![] };
             if a.upload {
